@@ -6,6 +6,7 @@ Oracle from the statement and the documented order of checks in USER_DOC.md
 ("Conditions to merge a pull request"): first failing check -> its own
 exception class, otherwise pass.
 """
+import collections
 import hashlib
 import re
 from types import SimpleNamespace
@@ -70,7 +71,11 @@ CONFIGS = ('TEST', 'OTHER+TEST', 'nokeys', 'noemail', 'nourl')
 # of the other: the bypass must compare whole prefixes
 BYPASS_PREFIXES = ((), ('dependabot',), ('dependabot', 'feature'), ('bug',),
                    ('bugfix',))
-BYPASS = ('none', 'comment', 'author', 'cmdline', 'other_option')
+# 'author_second': the author is the second entry of pr_author_options and
+# holds the bypass; 'other_author': somebody else, listed first, holds it and
+# the author (listed after) holds another bypass only -> no bypass
+BYPASS = ('none', 'comment', 'author', 'cmdline', 'other_option',
+          'author_second', 'other_author')
 TICKETLESS = ('none', 'last', 'all')
 
 G_CASCADES = (
@@ -106,7 +111,7 @@ def ticket_of(src):
 def oracle(case, expected_versions):
     """-> (verdict, either) ; verdict = 'pass' or an exception class name,
     either = True when the version cell is left open by the statement."""
-    if case['bypass'] in ('comment', 'author', 'cmdline'):
+    if case['bypass'] in ('comment', 'author', 'cmdline', 'author_second'):
         return 'pass', False
     prefix, project, key = ticket_of(case['src'])
     if prefix in case['bypass_prefixes']:
@@ -195,6 +200,14 @@ def settings_for(case):
         over['bypass_prefixes'] = list(case['bypass_prefixes'])
     if case['bypass'] == 'author':
         over['pr_author_options'] = {stubs.AUTHOR: ['bypass_jira_check']}
+    elif case['bypass'] == 'author_second':
+        over['pr_author_options'] = collections.OrderedDict([
+            ('somebody_else', ['bypass_build_status']),
+            (stubs.AUTHOR, ['bypass_jira_check'])])
+    elif case['bypass'] == 'other_author':
+        over['pr_author_options'] = collections.OrderedDict([
+            ('somebody_else', ['bypass_jira_check']),
+            (stubs.AUTHOR, ['bypass_build_status'])])
     return stubs.load_settings(**over)
 
 
@@ -266,7 +279,7 @@ def check(case, cascade, acc, cls):
     want, either = oracle(case, cascade.target_versions)
     got = evaluate(case, cascade)
     _, _, key = ticket_of(case['src'])
-    nontrivial = (case['bypass'] in ('none', 'other_option') and
+    nontrivial = (case['bypass'] in ('none', 'other_option', 'other_author') and
                   case['config'] in ('TEST', 'OTHER+TEST') and
                   ticket_of(case['src'])[0] not in case['bypass_prefixes']
                   and key is not None and case['issue'] is not None)
